@@ -120,6 +120,7 @@ type vConsumer struct {
 	afterClose  int
 	shutdown    bool
 	hold        bool // block inside ConsumeEvent until released
+	releaseCh   chan struct{}
 	released    bool
 	inside      bool
 	ackInside   bool
@@ -132,9 +133,7 @@ func (c *vConsumer) ConsumeEvent(ctx *models.ListenerContext) {
 	}
 	if c.hold {
 		c.inside = true
-		for !c.released {
-			time.Sleep(50 * time.Millisecond)
-		}
+		<-c.releaseCh // parked until the harness lets the application finish this event
 		c.inside = false
 	}
 	if c.ackInside {
@@ -177,6 +176,15 @@ type vWorld struct {
 	cfg  *config.Dcp
 }
 
+var vOldServer bool // the next world runs against a server below 5.5.0 (streams are closed one at a time)
+
+func vServerVersion() *couchbase.Version {
+	if vOldServer {
+		return &couchbase.Version{Major: 5, Minor: 0, Patch: 1}
+	}
+	return &couchbase.Version{Major: 7}
+}
+
 func vNewWorld(auto bool, health bool) *vWorld {
 	freezeSchedule() // one schedule for the start-up (C02/C15 explore it); everything after is explored
 	defer thawSchedule()
@@ -196,10 +204,10 @@ func vNewWorld(auto bool, health bool) *vWorld {
 	cfg.Dcp.Group.Membership.RebalanceDelay = 10 * time.Second
 	cfg.Dcp.Group.Membership.Type = "couchbase"
 	stopCh := make(chan struct{}, 1)
-	st := stream.NewStream(w.cl, w.st, cfg, &couchbase.Version{Major: 7}, &couchbase.BucketInfo{}, w.disc, w.co,
+	st := stream.NewStream(w.cl, w.st, cfg, vServerVersion(), &couchbase.BucketInfo{}, w.disc, w.co,
 		map[uint32]string{}, stopCh, models.DefaultEventHandler, tracing.NewTracerComponent())
 	w.d = &dcp{
-		client: w.cl, consumer: w.co, config: cfg, version: &couchbase.Version{Major: 7}, bucketInfo: &couchbase.BucketInfo{},
+		client: w.cl, consumer: w.co, config: cfg, version: vServerVersion(), bucketInfo: &couchbase.BucketInfo{},
 		apiShutdown: make(chan struct{}, 1), cancelCh: make(chan os.Signal, 1), stopCh: stopCh, readyCh: make(chan struct{}, 1),
 		metricCollectors: []prometheus.Collector{}, eventHandler: models.DefaultEventHandler, bus: &vBus{},
 		stream: st, vBucketDiscovery: w.disc, metadata: w.st,
@@ -229,6 +237,9 @@ func (w *vWorld) tracked(vb uint16) *models.Offset {
 func (w *vWorld) afterClose() {
 	w.cl.shutdown, w.st.shutdown, w.co.shutdown = true, true, true
 	pings := w.cl.pings
+	if w.co.releaseCh != nil && !w.co.released {
+		close(w.co.releaseCh)
+	}
 	w.co.released = true
 	setHorizon(nowNs() + int64(2*time.Minute))
 	quiesce()
@@ -279,8 +290,13 @@ func H_C13_idle() {
 func H_C13_delivery() {
 	setMerge(true)
 	vC13Preempt()
+	vOldServer = nondetBool("serverBelow550")
+	if vOldServer {
+		cover("serial-close")
+	}
 	w := vNewWorld(nondetBool("auto"), false)
 	w.co.hold = true
+	w.co.releaseCh = make(chan struct{})
 	w.co.ackInside = nondetBool("ackLate")
 	spawnEnv(func() { w.deliver(1, 5) })
 	for !w.co.inside {
